@@ -22,6 +22,8 @@ WATCHDOG_S = 30
 
 def base_spec(shape):
     def props(i):
+        if i == 2:
+            return []           # the third Section of a forest stays empty (an empty Section is a falsy object)
         return [{"name": "p", "dtype": "string", "values": ["x", "y"]},
                 {"name": "q", "dtype": "int", "values": [5]}]
     return docs.doc_of(docs.name_forest(shape, props=props))
